@@ -427,9 +427,14 @@ func RunCheck(verifDir, repoDir, prop, tier string, seed int64, only string, ver
 		"wall_s":      time.Since(t0).Seconds(),
 		"violations":  nViol,
 	}
-	os.MkdirAll(filepath.Join(verifDir, "evidence"), 0o755)
+	evDir := filepath.Join(verifDir, "evidence")
+	if d := os.Getenv("VERIF_EVIDENCE_DIR"); d != "" {
+		// development aid (mutation self-test): keep the committed evidence of the unchanged tree
+		evDir = d
+	}
+	os.MkdirAll(evDir, 0o755)
 	eb, _ := json.MarshalIndent(ev, "", " ")
-	if err := os.WriteFile(filepath.Join(verifDir, "evidence", prop+".json"), eb, 0o644); err != nil {
+	if err := os.WriteFile(filepath.Join(evDir, prop+".json"), eb, 0o644); err != nil {
 		out("ERROR: writing evidence: %v", err)
 		return 2
 	}
